@@ -342,13 +342,13 @@ def run_check(plugin, prop, tier, seed, skip_lean=False) -> int:
     rng = random.Random(seed * 1000003 + 17)
     cases = corpus_cases(prop)
     n_corpus = len(cases)
-    gen = plugin.cases(rng, tier)
-    cases += gen
-    all_cases = cases
-    t1 = time.time()
-    linecov = LineCoverage()
+    linecov = LineCoverage()          # several generators execute their cases while they build them: count from here on
     linecov.start()
     try:
+        gen = plugin.cases(rng, tier)
+        cases += gen
+        all_cases = cases
+        t1 = time.time()
         res = judge_all(plugin, cases)
     finally:
         linecov.stop()
